@@ -53,5 +53,9 @@ def run(rep, tier, seed, replay):
     rep.assumptions = ["memory safety as such is not decided (DESIGN.md 7): an out-of-bounds access that does not show in the cursor, "
                        "the guard bytes or the decoded value is not detected",
                        "preconditions as documented: buffer >= size computed with TBinaryProtocol<()>, input a complete well-formed encoding"]
+    # emitted size / encode / decode driven through the unchecked codec, every call validated against the cursor model
+    tr = gencheck.encode_traces(rep, "C11", tier, seed)
+    tr.update(gencheck.decode_traces(rep, "C11", tier, seed))
     rep.cov.update(gencheck.add_tagged(rep, "C11", tier, seed))
+    rep.cov.update(tr)
     return "model_checking"
